@@ -1,6 +1,6 @@
 //! C10 Total API: no public operation panics, aborts or fails to terminate on any input (E1).
 //! Every call is made inside catch_unwind at the call boundary; a watchdog thread reports a case
-//! that does not return within 10 s.
+//! that does not return within 60 s.
 
 use crate::{
     ctx::{Ctx, Tier},
@@ -47,9 +47,9 @@ fn start_watchdog() {
         let now = std::time::SystemTime::now().duration_since(std::time::UNIX_EPOCH).unwrap().as_millis() as u64;
         for (k, h) in HEART.iter().enumerate() {
             let t = h.load(Ordering::Relaxed);
-            if t != 0 && now.saturating_sub(t) > 10_000 {
+            if t != 0 && now.saturating_sub(t) > 60_000 {
                 let d = CURRENT.lock().map(|g| g.get(k).map(|x| x.1.clone()).unwrap_or_default()).unwrap_or_default();
-                println!("  signature: a public operation did not return within 10 s");
+                println!("  signature: a public operation did not return within 60 s");
                 println!("  detail: {d}");
                 let _ = std::fs::create_dir_all(format!("{}/replays", *crate::ctx::VERIF_DIR));
                 let _ = std::fs::write(format!("{}/replays/C10-hang.json", *crate::ctx::VERIF_DIR), serde_json::to_string_pretty(&json!({"property": "C10", "signature": "hang", "detail": d, "case": {"kind": "hang", "desc": d}})).unwrap());
@@ -484,7 +484,7 @@ pub fn run(tier: Tier) -> i32 {
     let ctx = Ctx::new("C10", tier, "fault_enumeration");
     let thorough = !ctx.quick();
     start_watchdog();
-    ctx.set_rule("every case is one public call made inside catch_unwind: parsing (single-edit, non-ASCII, oversized strings) and building whatever parses; Builder with local/remote/fixed-ephemeral keys of every length 0..=200 x {25519, P256} x {NN, XX, IK, K} x both roles, prologues up to 100 000 bytes, psk positions 0..=12; for every handshake name of a suite and both DH functions: every reachable handshake state (honest prefix of 0..=2n calls, also after one failed call) x write_message with payload {0,4,65535,65536} x buffer lengths around every field boundary and {0,1,65534..66000} x read_message with genuine / truncated-at-every-boundary / constant / wrong-index / oversize messages x payload buffers {0,1,3,4,5,20,70000} x set_psk(0..=12, len {0,31,32,33}) x both conversions x getters; both transport modes with boundary nonces and sizes. Oracle: the call returns. A watchdog reports a call that does not return within 10 s");
+    ctx.set_rule("every case is one public call made inside catch_unwind: parsing (single-edit, non-ASCII, oversized strings) and building whatever parses; Builder with local/remote/fixed-ephemeral keys of every length 0..=200 x {25519, P256} x {NN, XX, IK, K} x both roles, prologues up to 100 000 bytes, psk positions 0..=12; for every handshake name of a suite and both DH functions: every reachable handshake state (honest prefix of 0..=2n calls, also after one failed call) x write_message with payload {0,4,65535,65536} x buffer lengths around every field boundary and {0,1,65534..66000} x read_message with genuine / truncated-at-every-boundary / constant / wrong-index / oversize messages x payload buffers {0,1,3,4,5,20,70000} x set_psk(0..=12, len {0,31,32,33}) x both conversions x getters; both transport modes with boundary nonces and sizes. Oracle: the call returns. A watchdog reports a call that does not return within 60 s");
     let names = name_strings();
     names.par_iter().for_each(|s| check_name(&ctx, s));
     ctx.count("name_strings", names.len() as u64);
